@@ -8,6 +8,9 @@
    first step k at which that is the case, and a difference of at most 2 (b-a+12o)/2^k is then a *near-tie*:
    skipped and counted, never failed.  Any other difference is handed to the Spec check below: if the
    implementation breaks the property there it is a violation, otherwise a broken correspondence.
+   The failing-input search does not stop at the disagreeing instance: NoisyQuadratic is a location-scale family, so
+   the same (c, s = o/(b-a), shape, q) is re-evaluated on its images b-a in {1e-2, 1e-4, 1e-7, 1e3}, a in
+   {0, +-1e3 (b-a)}, and the first image at which a clause of the property fails becomes the replay.
 2. *Conformance* (every run, on the implementation alone): |cdf(ppf(q)) - q| <= 1e-5 with the code's own
    cdf for q in (0,1); ppf non-decreasing on sorted q grids; ppf(0), ppf(1) = -inf, +inf when the noise is
    modelled, = a, b (to rounding of a+(b-a)) when it is not; point mass constant; output shape = input shape.
@@ -60,9 +63,93 @@ def inverse_ok(rep, d, a, b, c, o, cv, q, y, worst, why):
     rep.count(f"inverse_checks[{why}]")
     if not (err <= INV_TOL):
         rep.violate(what=f"|cdf(ppf(q)) - q| = {err:.3g} > 1e-5", input=inp_of(a, b, c, o, cv, q),
-                    observed=dict(ppf=float(y), cdf_of_ppf=f), expected=q, call="NoisyQuadraticDistribution.ppf")
+                    observed=dict(ppf=float(y), cdf_of_ppf=f), expected=q, call="NoisyQuadraticDistribution.ppf", found_by=why)
         return False
     return True
+
+
+IMAGE_WIDTHS = (1e-2, 1e-4, 1e-7, 1e3)
+
+
+def gen_dist_scaled(rng, switches):
+    """C06's generator (all regimes and switch points), but half of the time moved to another member of the
+    location-scale family: b-a log-uniform on [1e-7, 1e3], |a| <= 1e3 (b-a) (the same s = o/(b-a), c, shape)"""
+    a, b, c, o, cv, tag = G.gen_dist(rng, switches)
+    if rng.random() < 0.5:
+        return a, b, c, o, cv, tag
+    w = 10 ** rng.uniform(-7, 3)
+    a2 = rng.choice([0.0, -w, 2.5 * w, w * 10 ** rng.uniform(0, 3), -w * 10 ** rng.uniform(0, 3)])
+    if b > a:
+        s = o / (b - a)
+        return a2, a2 + w, c, s * w, cv, tag + "|w=1e%d" % round(math.log10(w))
+    return a2, a2, c, (w if o > 0 else 0.0), cv, tag + "|w=1e%d" % round(math.log10(w))
+
+
+def clauses_at(rep, NQ, a, b, c, o, cv, qs, worst, why):
+    """evaluate every clause of the property on the implementation at one parameter setting; report the first
+    failing one as a violation and return True if one was found"""
+    reg = G.regime_of(a, b, o)
+    try:
+        d = NQ(a, b, c, o, cv)
+        g = np.array(sorted(set(float(q) for q in qs) | {0.0, 1.0}))
+        with np.errstate(all="ignore"):
+            v = np.asarray(d.ppf(g), dtype=float)
+    except Exception as e:
+        rep.violate(what="ppf raised on q in [0, 1]", error=repr(e), input=inp_of(a, b, c, o, cv),
+                    call="NoisyQuadraticDistribution.ppf", found_by=why)
+        return True
+    if v.shape != g.shape:
+        rep.violate(what="ppf output shape differs from input shape", input=inp_of(a, b, c, o, cv),
+                    call="NoisyQuadraticDistribution.ppf", found_by=why)
+        return True
+    if reg == "point":
+        if not np.all(v == a):
+            rep.violate(what="point mass: ppf(q) is not a", input=inp_of(a, b, c, o, cv), call="NoisyQuadraticDistribution.ppf",
+                        found_by=why)
+            return True
+        return False
+    lo_want, hi_want = (-INF, INF) if reg in ("nothing", "normal") else (a, b)
+    for q, y, want in ((0.0, v[0], lo_want), (1.0, v[-1], hi_want)):
+        ok = (y == want) if abs(want) == INF else abs(y - want) <= 4 * max(ulp(a), ulp(b))
+        if not ok:
+            rep.violate(what="ppf(0)/ppf(1) is not -inf/+inf (noise modelled) resp. a/b (noise ignored)",
+                        input=inp_of(a, b, c, o, cv, q), observed=float(y), expected=repr(want),
+                        call="NoisyQuadraticDistribution.ppf", found_by=why)
+            return True
+    for i in range(len(g) - 1):
+        if not (v[i] <= v[i + 1]):
+            rep.violate(what="ppf is not non-decreasing in q", input=dict(inp_of(a, b, c, o, cv), q_lo=C.fhex(g[i]), q_hi=C.fhex(g[i + 1])),
+                        observed=[float(v[i]), float(v[i + 1])], call="NoisyQuadraticDistribution.ppf", found_by=why)
+            return True
+    for q, y in zip(g, v):
+        if 0.0 < q < 1.0:
+            if y != y:
+                rep.violate(what="ppf(q) is nan", input=inp_of(a, b, c, o, cv, q), call="NoisyQuadraticDistribution.ppf", found_by=why)
+                return True
+            if not inverse_ok(rep, d, a, b, c, o, cv, float(q), float(y), worst, why):
+                return True
+    # scalar queries take the same code path with a one-element mask: evaluate a few of them as well
+    inner = [float(q) for q in g if 0.0 < q < 1.0]
+    for q in inner[:: max(1, len(inner) // 5)][:5]:
+        with np.errstate(all="ignore"):
+            y = float(d.ppf(q))
+        if y != y or not inverse_ok(rep, d, a, b, c, o, cv, q, y, worst, why):
+            return True
+    return False
+
+
+def image_search(rep, NQ, a, b, c, o, cv, qs, worst):
+    """location-scale images of a disagreeing instance: same c, s, shape, q; other widths and locations"""
+    if not b > a:
+        return False
+    s = o / (b - a)
+    qs = list(qs) + np.linspace(0.02, 0.98, 13).tolist()
+    for w in IMAGE_WIDTHS:
+        for a2 in (0.0, 1e3 * w, -1e3 * w):
+            rep.count("location_scale_images_searched")
+            if clauses_at(rep, NQ, a2, a2 + w, c, s * w, cv, qs, worst, "location-scale image of a disagreement"):
+                return True
+    return False
 
 
 def run(seed, tier, replay=None):
@@ -89,7 +176,7 @@ def run(seed, tier, replay=None):
         except Exception:
             rep.notes.append("replay file carries no C07 input; running the seeded check")
     for _ in range(n_dists):
-        a, b, c, o, cv, tag = G.gen_dist(rng, switches)
+        a, b, c, o, cv, tag = gen_dist_scaled(rng, switches)
         dists.append((a, b, c, o, cv, tag, None))
 
     reqs = []
@@ -99,10 +186,13 @@ def run(seed, tier, replay=None):
         dists[di] = (a, b, c, o, cv, tag, qs)
         reqs.append(("noisy.ppf", f"{G.params_line(a, b, c, o, cv)} {C.flist(qs)}"))
         rep.count("regime=" + G.regime_of(a, b, o))
-        rep.count("s:" + tag)
+        rep.count("s:" + tag.split("|")[0])
+        rep.count("width=1e%d" % (round(math.log10(b - a)) if b > a else 0) if b > a else "width=0")
     replies = drv.run(reqs)
+    images_left = 6          # disagreeing distributions whose location-scale images are searched
 
     n_ident = n_cmp = 0
+    searched = set()
     for di, (a, b, c, o, cv, tag, qs) in enumerate(dists):
         r = replies[di]
         base = inp_of(a, b, c, o, cv)
@@ -178,6 +268,10 @@ def run(seed, tier, replay=None):
                 rep.skip("near_tie_bisection_decision_within_cdf_jitter")
                 continue
             ok = inverse_ok(rep, d, a, b, c, o, cv, q, y, worst, "disagreement") if (reg != "point" and 0 < q < 1) else True
+            if ok and images_left > 0 and di not in searched:
+                searched.add(di)
+                images_left -= 1
+                image_search(rep, NQ, a, b, c, o, cv, qs, worst)
             if ok:
                 rep.disagree(op="noisy.ppf", input=inp_of(a, b, c, o, cv, q), model=mv, impl=y, tol=tol, margin=mm,
                              first_tie_step=mk, note="model and implementation differ by more than 1e-8 (b-a+12o) with no "
@@ -207,7 +301,8 @@ def run(seed, tier, replay=None):
                         observed=[float(v[i]), float(v[i + 1])], call="NoisyQuadraticDistribution.ppf")
 
     return rep.result(
-        rule="a case is (distribution, q). Distributions as in C06 (all regimes, both sides of every switch point, o=0, a=b); "
+        rule="a case is (distribution, q). Distributions as in C06 (all regimes, both sides of every switch point, o=0, a=b), half of "
+             "them moved within the location-scale family to b-a log-uniform on [1e-7, 1e3] with |a| <= 1e3 (b-a); "
              "q: 0, 1, 1e-12, 1-1e-12, 0.5, uniform, U^4, 1-U^4, {5e-324,1e-300,1e-15,...,1-2^-53}; scalar, 1-D, 2-D and empty "
              "queries; monotonicity on sorted 250-point grids incl. 21 points 1e-9 apart. distinct = distinct by hash of the case.",
         extra=dict(driver_lines=drv.lines,
